@@ -6,8 +6,10 @@ package main
 
 import (
 	"fmt"
+	"go/constant"
 	"go/token"
 	"go/types"
+	"regexp"
 	"sort"
 	"strings"
 
@@ -314,6 +316,7 @@ func runC16(c *Ctx, r *Report) {
 	c16Writers(c, r)
 	c16NonNumbers(c, r, reg)
 	c16Verbs(c, r)
+	c16FractionTable(c, r)
 }
 
 // ---- R16.3 ------------------------------------------------------------------------
@@ -550,3 +553,104 @@ func c16Verbs(c *Ctx, r *Report) {
 
 var _ = sort.Strings
 var _ types.Type
+
+// c16FractionTable (R16.6): the %1S … %9S extensions of strftime are a table
+// in the source — for k decimal places the nanoseconds are divided by
+// 10^(9-k) and printed with width k — read from the closures as written.
+func c16FractionTable(c *Ctx, r *Report) {
+	r.Rule("R16.6", "the fractional-second table of strftime is consistent: each appender registered for a digit specification 'k' (%1S … %9S) divides the nanoseconds by 10^(9-k) and prints the quotient zero-padded to width k (both read as constants from the closure registered under 'k'): width + log10(divisor) = 9 and width = k")
+	p := c.Pkg("pkg/bifs")
+	if p == nil {
+		r.Undecided("R16.6", "pkg/bifs", "", "package not loaded")
+		return
+	}
+	n := 0
+	for _, fn := range c.ModuleFunctions() {
+		if fn.Blocks == nil || fn.Pkg == nil || fn.Pkg.Pkg != p.Types {
+			continue
+		}
+		// ss.Set('k', appender) calls
+		for _, b := range fn.Blocks {
+			for _, in := range b.Instrs {
+				call, ok := in.(*ssa.Call)
+				if !ok || !strings.HasSuffix(CalleeName(&call.Call), "SpecificationSet.Set") && !(call.Call.IsInvoke() && call.Call.Method.Name() == "Set") {
+					continue
+				}
+				args := call.Call.Args
+				if len(args) < 2 {
+					continue
+				}
+				kc, ok := args[len(args)-2].(*ssa.Const)
+				if !ok || kc.Value == nil {
+					continue
+				}
+				kv, ok := constant.Int64Val(kc.Value)
+				if !ok || kv < '1' || kv > '9' {
+					continue
+				}
+				k := int(kv - '0')
+				// the closure behind the appender value
+				var cl *ssa.Function
+				var find func(v ssa.Value, depth int)
+				find = func(v ssa.Value, depth int) {
+					if depth > 5 || cl != nil {
+						return
+					}
+					switch x := v.(type) {
+					case *ssa.MakeClosure:
+						cl, _ = x.Fn.(*ssa.Function)
+					case *ssa.Function:
+						cl = x
+					case *ssa.Call:
+						for _, a := range x.Call.Args {
+							find(a, depth+1)
+						}
+					case *ssa.MakeInterface:
+						find(x.X, depth+1)
+					case *ssa.ChangeType:
+						find(x.X, depth+1)
+					}
+				}
+				find(args[len(args)-1], 0)
+				key := fmt.Sprintf("%%%dS", k)
+				if cl == nil || cl.Blocks == nil {
+					r.Undecided("R16.6", key, c.Rel(call.Pos()), "the appender registered for this specification could not be resolved to a function")
+					continue
+				}
+				n++
+				width, div := -1, int64(-1)
+				for _, cb := range cl.Blocks {
+					for _, cin := range cb.Instrs {
+						hc, ok := cin.(*ssa.Call)
+						if !ok {
+							continue
+						}
+						for _, a := range hc.Call.Args {
+							kk, ok := a.(*ssa.Const)
+							if !ok || kk.Value == nil {
+								continue
+							}
+							if kk.Value.Kind() == constant.String {
+								f := constant.StringVal(kk.Value)
+								if m := regexp.MustCompile(`^%0(\d)d$`).FindStringSubmatch(f); m != nil {
+									width = int(m[1][0] - '0')
+								}
+							} else if kk.Value.Kind() == constant.Int {
+								if v, ok := constant.Int64Val(kk.Value); ok && v >= 1 {
+									div = v
+								}
+							}
+						}
+					}
+				}
+				pow := int64(1)
+				for i := 0; i < 9-k; i++ {
+					pow *= 10
+				}
+				r.Check(width == k && div == pow, "R16.6", key, c.Rel(cl.Pos()), fmt.Sprintf("width %d, divisor %d", width, div),
+					fmt.Sprintf("the appender for %s prints width %d after dividing the nanoseconds by %d; %d decimal places need width %d and divisor %d", key, width, div, k, k, pow))
+			}
+		}
+	}
+	r.Floor("R16.6", "fractional-second specifications", n, 9)
+}
